@@ -53,7 +53,7 @@ func (x *Engine) indexFunctions() {
 }
 
 // verifyFunc generates all obligations of one function under contract.
-func (x *Engine) verifyFunc(fs *FuncSpec) (rep *FuncReport) {
+func (x *Engine) verifyFunc(fs *FuncSpec, cs *Clause) (rep *FuncReport) {
 	rep = &FuncReport{Key: fs.Key, Props: fs.Props}
 	fn := x.fnByKey[fs.Key]
 	if fn == nil {
@@ -61,6 +61,10 @@ func (x *Engine) verifyFunc(fs *FuncSpec) (rep *FuncReport) {
 		return
 	}
 	x.reset(shortKey(fs.Key))
+	if cs != nil {
+		x.curFn += "|" + cs.Label
+		rep.Key += "|" + cs.Label
+	}
 	x.curProps = fs.Props
 	x.obls = nil
 	x.topSpec = fs
@@ -107,6 +111,10 @@ func (x *Engine) verifyFunc(fs *FuncSpec) (rep *FuncReport) {
 	for _, c := range fs.Requires {
 		ev := &Eval{x: x, st: st, old: st, env: fr.env, pkg: pkg}
 		x.assume(st, x.safeEvalBool(ev, c))
+	}
+	if cs != nil {
+		ev := &Eval{x: x, st: st, old: st, env: fr.env, pkg: pkg}
+		x.assume(st, x.safeEvalBool(ev, cs))
 	}
 	for _, c := range fs.Wits {
 		ev := &Eval{x: x, st: st, old: st, env: fr.env, pkg: pkg}
